@@ -24,7 +24,9 @@ def pin_xml(p):
     d = p.get("default")
     if d is not None:
         if d == "Z":
-            e += '<entry><string>InDefault</string><value v="0" z="true"/></entry>'
+            # Digital writes both attributes; `zonly`: only z
+            e += ('<entry><string>InDefault</string><value z="true"/></entry>' if p.get("zonly") else
+                  f'<entry><string>InDefault</string><value v="{p.get("zv", 0)}" z="true"/></entry>')
         else:
             e += f'<entry><string>InDefault</string><value v="{d}" z="false"/></entry>'
     return (f"<visualElement><elementName>{p['kind']}</elementName><elementAttributes>{e}</elementAttributes>"
@@ -179,6 +181,8 @@ HAND = [
     [P("Clock", "CLK"), P("In", None, 4), P("And"), P("Out", None), P("In", "D", 64, 0), P("Out", "Q", 64), T("t", "CLK D Q\nC 1 1\n")],
     # document order is kept, inputs and outputs interleaved
     [P("Out", "Y1"), P("In", "A1"), P("Out", "Y2", 2), P("Clock", "K"), P("In", "A2", 3, 7), T("b", "A1 Y1\n0 0\n"), T("a", "A2 Y2\n0 0\n"), T("c", "K Y1\nC 0\n")],
+    # high-Z defaults as Digital writes them (v and z), with a non-zero v, and with z alone
+    [P("In", "A", 4, "Z"), dict(kind="In", label="B", bits=None, default="Z", zv=7), dict(kind="In", label="D", bits=2, default="Z", zonly=True), P("Out", "Y"), T("t", "A B D Y\n0 0 0 0\n")],
     # no tests, no pins
     [P("In", "A"), P("Out", "Y")],
     [T("t", "A\n0\n")],
@@ -187,6 +191,8 @@ HAND = [
     [P("In", "A", 8), P("Out", "Y", 8), T("shift & compare", "\n\nA Y\n# a comment\nlet a = 1 << 2;\n(a) (a<5 & a>1)\n")],
     # two tests sharing a label: by name the first
     [P("In", "A"), P("Out", "Y"), T("same", "A Y\n0 0\n"), T("same", "A Y\n1 1\n"), T("other", "A Y\n1 0\n")],
+    # labels that differ only in letter case or by a blank are different labels
+    [P("In", "A"), P("Out", "Y"), T("step", "A Y\n0 0\n"), T("STEP", "A Y\n1 1\n"), T("Step ", "A Y\n1 0\n")],
     # a test that does not parse / does not bind is still listed (load_test reports it)
     [P("In", "A"), P("Out", "Y"), T("bad", "A Y\n0 0 0\n"), T("worse", "A Y\nloop(\n")],
     # bidirectional marker used in one test only; marker for the second of two inputs
